@@ -6,5 +6,5 @@ ASSUME = ["A-INT", "the C compiler is not run: validity is decided on the LNodes
 
 
 def run(tier, seed):
-    return run_components("C19", tier, seed, ["e1", finite.c19_rule_ids, lambda rep, t, s: triples.run_triples(rep, "C"), "e2"], ASSUME,
+    return run_components("C19", tier, seed, ["e1", finite.c19_rule_ids, finite.c19_names, finite.c19_rejections, lambda rep, t, s: triples.run_triples(rep, "C"), "e2"], ASSUME,
                           ["kernelvc (E2 walker; scoping mirrors C/formatter.py)", "pycparser"])
